@@ -20,6 +20,7 @@ type OpFeatures struct {
 	VarOmitted       bool // nullable variable without value and without default
 	VarInInput       bool
 	VarNamedID       bool
+	VarNamedIDRoot   bool // a variable called id, used only in arguments of root fields
 	VarStricter      bool // variable declared non-null at a nullable position
 	Directives       bool
 	DirectiveVars    bool
@@ -63,6 +64,7 @@ func DefaultOpFeatures(t *tape.Tape) OpFeatures {
 		IDAlias:         t.Bool(1, 2),
 		FragTwice:       t.Bool(1, 2),
 		FragReuse:       t.Bool(1, 2),
+		VarNamedIDRoot:  t.Bool(1, 3),
 		VarInInput:      t.Bool(1, 3),
 		VarStricter:     t.Bool(1, 3),
 		MultiOp:         t.Bool(1, 5),
@@ -110,6 +112,7 @@ type og struct {
 	fragRecs      []fragRec
 	lastKey       string
 	reuses        int
+	argDepth      int // depth of the field whose arguments are being generated
 }
 
 func (g *og) mark(s string) { g.used[s]++ }
@@ -462,6 +465,7 @@ func (g *og) field(parent *ast.Definition, fd *ast.FieldDefinition, depth int, u
 	}
 	s += fd.Name
 	var as []string
+	g.argDepth = depth
 	for _, ad := range fd.Arguments {
 		required := ad.Type.NonNull && ad.DefaultValue == nil
 		if !required && !g.t.Bool(1, 2) {
@@ -506,7 +510,7 @@ func (g *og) argValue(t *ast.Type, nest int) (string, bool) {
 	if g.f.Variables && len(g.vars) < 5 && g.t.Bool(1, 2) {
 		g.mark("variable")
 		vn := g.next("v")
-		if g.f.VarNamedID {
+		if g.f.VarNamedID || (g.f.VarNamedIDRoot && g.argDepth == 1) {
 			free := true
 			for _, v := range g.vars {
 				if v.name == "id" {
@@ -640,7 +644,10 @@ func (g *og) jsonValue(t *ast.Type, nest int, forceNonNull bool) interface{} {
 	}
 	switch t.NamedType {
 	case "String":
-		return []string{"vx", "v hello", ""}[g.t.Choose(3)]
+		if c := g.t.Choose(4); c < 3 {
+			return []string{"vx", "v hello", ""}[c]
+		}
+		return g.entityLikeID()
 	case "Int":
 		return []int{0, 3, 99, -1}[g.t.Choose(4)]
 	case "Float":
@@ -648,7 +655,10 @@ func (g *og) jsonValue(t *ast.Type, nest int, forceNonNull bool) interface{} {
 	case "Boolean":
 		return g.t.Bool(1, 2)
 	case "ID":
-		return []string{"vk1", "vk2"}[g.t.Choose(2)]
+		if c := g.t.Choose(3); c < 2 {
+			return []string{"vk1", "vk2"}[c]
+		}
+		return g.entityLikeID()
 	}
 	td := g.schema.Types[t.NamedType]
 	if td == nil {
@@ -689,4 +699,14 @@ func GenRootField(t *tape.Tape, w *World, schema *ast.Schema, root *ast.Definiti
 	f.Aliases = false
 	g := &og{t: t, w: w, schema: schema, f: f, budget: budget, maxD: maxDepth, used: map[string]int{}}
 	return g.field(root, fd, 1, map[string]bool{})
+}
+
+// entityLikeID is a client value that happens to be the id of an entity (what a client passes
+// to a lookup or a mutation that takes an id).
+func (g *og) entityLikeID() string {
+	es := g.w.kind("entity")
+	if len(es) == 0 {
+		return "vk3"
+	}
+	return g.w.EntityID(es[g.t.Choose(len(es))], g.t.Choose(3))
 }
